@@ -228,14 +228,42 @@ fn prim(spec: &Spec, v: &dyn fmt::Display) -> Option<String> {
 }
 
 fn resolves<Q: Quantity>(symbol: &str, unit_name: &str) -> bool {
-    // the symbol must resolve to the first unit in iteration order having it,
-    // and that unit must be the stored one wherever symbols are unique
-    let first = Q::iter_units().find(|u| u.symbol() == symbol);
-    let n = Q::iter_units().filter(|u| u.symbol() == symbol).count();
-    match (Q::unit_from_symbol(symbol), first) {
-        (Some(u), Some(f)) => u.name() == f.name() && (n > 1 || u.name() == unit_name),
-        _ => false,
+    // "the symbol resolves to the stored unit": symbols are unique within every
+    // type displayed here (the whole catalogue, the astronomical crate, the
+    // synthetic types), so the lookup must give back exactly the stored unit
+    match Q::unit_from_symbol(symbol) {
+        Some(u) => u.name() == unit_name,
+        None => false,
     }
+}
+
+/// Symbols of the synthetic types as declared in `synth` above, in the order
+/// in which the units are iterated (non-decreasing scale, reference unit first
+/// among scale one, declaration order for other ties; name order without a
+/// reference unit): known here independently of the generated code.
+pub const SYNTH_DECLARED: &[(&str, &[&str])] = &[
+    ("synth::Foo", &["c", "b", "aaa"]),
+    ("synth::Odd", &["µΩ·m", "Ω·m", "ΩM", "𝛑", "a rather long symbol"]),
+    ("synth::Soda", &["fi zz", "pop"]),
+    ("synth::Count", &["pcs"]),
+    ("synth::Bare", &["", "dz"]),
+];
+
+/// The symbol a unit must display: for the synthetic types the declared one,
+/// otherwise what the library's `symbol()` reports (whether *that* is the
+/// published symbol is property C07, not C15).
+fn display_symbol(type_name: &str, unit_index: usize, reported: String) -> String {
+    SYNTH_DECLARED
+        .iter()
+        .find(|d| d.0 == type_name)
+        .and_then(|d| d.1.get(unit_index))
+        .map(|s| s.to_string())
+        .unwrap_or(reported)
+}
+
+/// Harness self-check: the declared tables cover exactly the units the types have.
+pub fn declared_tables_fit() -> bool {
+    SYNTH_DECLARED.iter().all(|d| TABLE.iter().any(|e| e.name == d.0 && (e.n_units)() == d.1.len()))
 }
 
 fn qty_shown<Q>(ty: usize, unit: usize, amount: Amt, spec: &Spec) -> Shown
@@ -246,7 +274,7 @@ where
     let u = Q::iter_units().nth(unit % n).unwrap();
     let a = amt::to_amount(amount);
     let q = Q::new(a, u);
-    let symbol = u.symbol();
+    let symbol = display_symbol(TABLE[ty].name, unit % n, u.symbol());
     let describe = format!("{:?} '{}' of {}", a, symbol, TABLE[ty].name);
     let (expect, expect_bytes) = if symbol.is_empty() {
         let e = prim(spec, &a);
@@ -280,7 +308,7 @@ where
 {
     let n = Q::iter_units().count();
     let u = Q::iter_units().nth(unit % n).unwrap();
-    let symbol = u.symbol();
+    let symbol = display_symbol(TABLE[ty].name, unit % n, u.symbol());
     let e = prim(spec, &symbol);
     Shown {
         value: Box::new(u),
